@@ -38,7 +38,7 @@
    slices (a page that is freed -- by _mi_segment_page_free, mi_segment_check_free, mi_segment_reclaim,
    the abandon paths -- adds its slices to `s_free` as one more entry).  With these conventions the
    projection (arenas, heaps, segments with memid / owner / visits, pages with heap / tag / live / slices,
-   free-span sizes) of the real allocator is replayed op by op (harness/t_bind.c, ocaml/mode_bind.ml
+   free-span sizes) of the real allocator is replayed op by op (harness/t_bind.c, ocaml/mode_bindtrace.ml
    mode bind-trace). *)
 From Coq Require Import NArith ZArith List Bool.
 From MiV Require Import Gen.Consts Gen.OsConsts Model.Arith.
